@@ -53,6 +53,9 @@ type c16Case struct {
 	OnDisconnect []c16Act  `json:"on_disconnect,omitempty"`
 	Ops          []c16Op   `json:"ops,omitempty"`
 	Threads      [][]c16Op `json:"threads,omitempty"`
+	Stalled      []int     `json:"stalled,omitempty"` // connections nobody reads from (a client that stopped reading) until they hang up
+	// only the witness of the recorded finding sets this: handlers may send to a stalled connection under the block strategy
+	HandlerSendsToStalled bool `json:"handler_sends_to_stalled,omitempty"`
 }
 
 func c16Deferred(a string) bool { return a == "bcast" || a == "roomcast" || a == "close" }
